@@ -52,6 +52,13 @@ class UserCancelled(Tagged, asyncio.CancelledError):
     pass
 
 
+class _Hop:
+    """a suspension point of a hand-written scheduler"""
+
+    def __await__(self):
+        yield "icv-hop"
+
+
 class AwaitableInt:
     """A value that happens to be awaitable (like a Future): stands for the integer k; awaiting it gives another one."""
 
@@ -134,6 +141,7 @@ class World:
         self.excs = {}
         self.setup = True       # during set-up every condition holds silently
         self.is_async = False
+        self.hop = False
         self.instance_tag = 900
 
     # ---- values
@@ -314,12 +322,34 @@ class World:
             return -1
         return int(m.group(1) or m.group(2))
 
-    def run(self, thunk, is_async=False):
+    async def abody(self, env):
+        """the body of a coroutine function: under a hand-written scheduler it suspends once before it runs"""
+        if self.hop:
+            await _Hop()
+        return self.body(env)
+
+    def run(self, thunk, is_async=False, hop=False):
         self.setup = False
         self.is_async = is_async
+        self.hop = bool(is_async and hop)
         self.events = []
         try:
-            if is_async:
+            if self.hop:
+                # a scheduler of its own: every step of the coroutine runs in another of two contexts
+                import contextvars
+                ctxs = [contextvars.copy_context(), contextvars.copy_context()]
+                coro = thunk()
+                step = 0
+                while True:
+                    try:
+                        ctxs[step % 2].run(coro.send, None)
+                    except StopIteration as stop:
+                        r = stop.value
+                        break
+                    step += 1
+                    if step > 50:
+                        raise RuntimeError("the coroutine does not end")
+            elif is_async:
                 r = asyncio.run(thunk())
             else:
                 r = thunk()
